@@ -1,7 +1,7 @@
 ------------------------------ MODULE MC_addr ------------------------------
 (***************************************************************************)
 (* C01: coordinate addressing.  Every shape of rank 0..MaxRank x every     *)
-(* constructor x layout (as built / one slice / one transposition), and    *)
+(* constructor x layout (as built / one or two slices and transpositions), and   *)
 (* for each such tensor the COMPLETE table  coordinate -> cell  over the   *)
 (* box [-2, dim+1] per axis, plus wrong-arity coordinates.                 *)
 (***************************************************************************)
@@ -46,7 +46,16 @@ Next ==
                /\ ~SliceBad(live[1].shape, sl) /\ ~SliceOpen(live[1].shape, sl)
                /\ DoX(Op("Slice", 1, sl))
           \/ \E p \in Perms(Len(live[1].shape)) : ~IsIdent(p) /\ DoX(Op("T", 1, p))
-    \/ /\ Len(steps) \in {1, 2}
+    \* layouts two steps away: a second transposition of the pending tensor (composition, undo, cycles), a
+    \* transposition of a slice, a slice of a lazily transposed tensor
+    \/ /\ Len(steps) = 2 /\ LastOK /\ LastK \in {"Slice", "T"}
+       /\ Len(live[Len(live)].shape) \in 2..3
+       /\ \/ \E p \in Perms(Len(live[Len(live)].shape)) : ~IsIdent(p) /\ DoX(Op("T", Len(live), p))
+          \/ /\ LastK = "T"
+             /\ \E sl \in SliceListsPrefix(live[1].shape, AxisPaletteSmall) :
+                  /\ ~SliceBad(live[1].shape, sl) /\ ~SliceOpen(live[1].shape, sl)
+                  /\ DoX(Op("Slice", 1, sl))
+    \/ /\ Len(steps) \in {1, 2, 3}
        /\ LastK # "AtBox" /\ LastOK
        /\ DoX(Op("AtBox", Len(live), <<>>))
 
